@@ -17,6 +17,24 @@ func genConcurrent(r *Rand, n int, o histOpts, limit int) *Case {
 		// authenticating users: the password exchange of several connections overlaps
 		c.Server.Auth = "cleartext"
 	}
+	if r.Chance(1, 4) {
+		// a probe first: a peer that hangs up or sends junk before a complete
+		// startup packet (health check, port scan); whatever the server does with
+		// it must not disturb the sessions that follow
+		var probe pgwire.FMsg
+		switch r.Intn(4) {
+		case 0:
+			probe = pgwire.FMsg{K: "raw", Data: nil}
+		case 1:
+			probe = pgwire.FMsg{K: "raw", Data: r.Bytes(r.Range(1, 7))}
+		case 2:
+			probe = pgwire.FMsg{K: "raw", Data: []byte("GET / HTTP/1.0\r\n\r\n")}
+		case 3:
+			probe = startupMsg("probe", "db")
+			probe.Cut = intp(r.Range(1, 12))
+		}
+		c.Conns = append(c.Conns, ConnCase{Steps: []Step{{Msgs: []pgwire.FMsg{probe}}}})
+	}
 	for i := 0; i < n; i++ {
 		oo := o
 		oo.prefix = fmt.Sprintf("c%d", i)
@@ -135,7 +153,7 @@ func kindsOfCanonical(s string) string {
 func init() {
 	register(&Prop{
 		ID: "C15", Level: "exploration", QuickS: 30, ThoroughS: 480, Race: true,
-		Rule: "seeded sets of 2-5 sessions drawn from the generators of C05-C09/C13 (simple and extended queries, COPY, failing handlers, Close) that deliberately use the same statement/portal names, different users and different Go row types for the same OIDs; each session is first served alone on a fresh server (E1), then all together on one server under 4 (quick) / 8 (thorough) seeded schedules (uniform, PCT depth 1-3; schedule points at every transport operation, callback entry, row write and spliced sync operation, so handler executions interleave at row granularity and one connection may be starved until the others are done); oracle (a): per connection the canonical transcript and callback trace equal the solo ones; oracle (b): the -race shard with the HB-transparent scheduler reports nothing (a report is attributed to the case and confirmed by replaying it alone in a fresh -race process); non-trivial = at least two connections; distinct = distinct case content hashes; distinct_interleavings = distinct (task, point) decision sequences",
+		Rule: "seeded sets of 2-5 sessions drawn from the generators of C05-C09/C13 (simple and extended queries, COPY, failing handlers, Close) that deliberately use the same statement/portal names, different users and different Go row types for the same OIDs; each session is first served alone on a fresh server (E1), then all together on one server under 4 (quick) / 8 (thorough) seeded schedules (uniform, PCT depth 1-3; schedule points at every transport operation, callback entry, row write and spliced sync operation, so handler executions interleave at row granularity and one connection may be starved until the others are done); oracle (a): per connection the canonical transcript and callback trace equal the solo ones; oracle (b): the -race shard with the HB-transparent scheduler reports nothing (a report is attributed to the case and confirmed by replaying it alone in a fresh -race process); a quarter of the sets are preceded by a probe connection (EOF, junk, HTTP request or truncated startup packet); non-trivial = at least two connections; distinct = distinct case content hashes; distinct_interleavings = distinct (task, point) decision sequences",
 		Components: []string{
 			"real: everything on the serving path (accept loop, per-connection goroutines, handshake, command loop, caches, type maps, writers, COPY readers, pgx codecs)",
 			"stub: listener/connections, handler programs; scheduler: harness/kernel.go serialises and chooses goroutines; race oracle: Go race detector of the -race worker, kernel synchronisation hidden via runtime.RaceDisable and //go:norace",
